@@ -1233,7 +1233,7 @@ impl World {
         let Some(fut) = c.fut.as_mut() else { return };
         let waker = Waker::noop();
         let mut cx = Context::from_waker(waker);
-        let polled = catch_unwind(AssertUnwindSafe(|| fut.as_mut().poll(&mut cx)));
+        let polled = crate::checks::quiet(|| catch_unwind(AssertUnwindSafe(|| fut.as_mut().poll(&mut cx))));
         match polled {
             Ok(Poll::Pending) => {}
             Ok(Poll::Ready(r)) => {
